@@ -186,23 +186,35 @@ def gen_trotter_jobs(chk, jobs, meta, rng):
                             except Exception as e:
                                 chk.violation("get_exponentiated:exception:%s" % ("multi-control-identity" if (len(cspec) > 1 and any(t == () for t, _ in terms)) else "other"),
                                               "%s: %s" % (type(e).__name__, e), info)
-                        # TrotterSuzukiUnitary (controlled only: uncontrolled drops the phase by design)
+                        # TrotterSuzukiUnitary (controlled only: uncontrolled drops the phase by design).
+                        # The object has state (its default n_steps_method): ONE object per default receives a HISTORY of
+                        # build_circuit calls - explicit method, other explicit method, then calls WITHOUT a method argument -
+                        # and every returned circuit is judged; a call with an explicit method must not change the default.
                         if tmode == "scalar" and cspec and not any(t == () for t, _ in terms):
-                            for method in ("time", "repeat"):
-                                for ns in (1, 2):
+                            for default in ("time", "repeat"):
+                                try:
+                                    u = TrotterSuzukiUnitary(op, time=time, trotter_order=order, n_trotter_steps=steps,
+                                                             n_steps_method=default)
+                                except Exception as e:
+                                    chk.violation("TrotterSuzukiUnitary:exception", "%s: %s" % (type(e).__name__, e), info)
+                                    continue
+                                other = "repeat" if default == "time" else "time"
+                                history = [(default, 1), (other, 2), (None, 2), (other, 1), (None, 1), (default, 2), (None, 2)]
+                                for hi, (method, ns) in enumerate(history):
+                                    eff = default if method is None else method
                                     try:
-                                        u = TrotterSuzukiUnitary(op, time=time, trotter_order=order, n_trotter_steps=steps)
-                                        circ = u.build_circuit(ns, control=carg, method=method)
+                                        circ = u.build_circuit(ns, control=carg) if method is None else \
+                                            u.build_circuit(ns, control=carg, method=method)
                                         gj = gates_to_json(list(circ), M)
                                     except OffGrid:
                                         chk.inconclusive += 1
                                         continue
-                                    if method == "repeat":
+                                    if eff == "repeat":
                                         f2 = fac * ns
                                     else:
                                         f2 = expected_factors(terms, n, [m * ns for m in tm], order, steps)
                                     mk_job(jobs, meta, "TrotterSuzukiUnitary", n, gj, f2, cspec, ph=0,
-                                           info=dict(info, method=method, n_steps=ns))
+                                           info=dict(info, default=default, history=[list(h) for h in history[:hi + 1]]))
 
 
 def gen_fermion_jobs(chk, jobs, meta, rng):
@@ -216,6 +228,9 @@ def gen_fermion_jobs(chk, jobs, meta, rng):
         ("jw", [(((0, 1), (0, 0)), 2), (((1, 1), (1, 0)), -6), (((0, 1), (2, 0)), 6), (((2, 1), (0, 0)), 6)], {}),
         ("bk", [(((0, 1), (1, 0)), 2), (((1, 1), (0, 0)), 2), (((2, 1), (2, 0)), 6)], {"n_spinorbitals": 4}),
         ("jkmn", [(((0, 1), (1, 0)), 6), (((1, 1), (0, 0)), 6), (((3, 1), (3, 0)), 2)], {"n_spinorbitals": 4}),
+        # commuting number operators: every term may carry its own time (dict given in a DIFFERENT key order than the operator)
+        ("jw", [(((0, 1), (0, 0)), 2), (((1, 1), (1, 0)), 6), (((2, 1), (2, 0)), -2)], {}),
+        ("bk", [(((0, 1), (0, 0)), 2), (((1, 1), (1, 0)), -6), (((3, 1), (3, 0)), 2)], {"n_spinorbitals": 4}),
     ]
     for mapping, fterms, opts in cases:
         for steps in (1, 2):
@@ -231,10 +246,11 @@ def gen_fermion_jobs(chk, jobs, meta, rng):
                         time = float(mult)
                         tms = {t: mult for t, _ in fterms}
                     else:
-                        tms = {t: mult * (1 + 2 * (j % 2)) for j, (t, _) in enumerate(fterms)}
+                        tms = {t: mult * (1 + 2 * (j % 3)) for j, (t, _) in enumerate(fterms)}
                         # hermitian pairs must share their time for the generator to stay Hermitian
                         tms = {t: tms[tuple(sorted([t, tuple((p, 1 - d) for p, d in reversed(t))]))[0]] for t in tms}
-                        time = {t: float(v) for t, v in tms.items()}
+                        # the dictionary is deliberately built in REVERSED term order: times are looked up by key
+                        time = {t: float(tms[t]) for t in reversed(list(tms))}
                     mo = dict(opts, qubit_mapping=mapping)
                     info = {"mapping": mapping, "fterms": fterms, "steps": steps, "order": order, "time": tmode}
                     try:
@@ -295,6 +311,64 @@ def negative_controls(jobs):
     return ctl
 
 
+def small_angle_tail(chk):
+    """NUMERIC TAIL (not model-checked): coefficients far below the grid. The exact ring cannot represent c = 1e-7, so
+    the circuit's unitary is taken from cirq (float oracle, validated by C01) and compared with cos(c) 1 - i sin(c) P /
+    exp(-itH) for commuting terms written out in numpy. Whatever the code decides to do with tiny rotations (keep or
+    skip), the implemented operator must stay within 1e-9 of the exact one."""
+    import numpy as np
+    import cirq
+    from tangelo.linq import Circuit, translate_circuit
+    from tangelo.toolboxes.ansatz_generator.ansatz_utils import exp_pauliword_to_gates, trotterize
+    from tangelo.toolboxes.operators import QubitOperator
+    P = {"I": np.eye(2), "X": np.array([[0, 1], [1, 0]]), "Y": np.array([[0, -1j], [1j, 0]]), "Z": np.diag([1, -1])}
+
+    def word_matrix(term, n):
+        m = np.ones((1, 1))
+        d = dict(term)
+        for q in range(n):
+            m = np.kron(m, P[d.get(q, "I")])
+        return m
+
+    def unitary(circ, n):
+        c = Circuit(list(circ), n_qubits=n)
+        return cirq.unitary(translate_circuit(c, "cirq"))
+    n_cases, worst = 0, 0.0
+    for term in [((0, "X"),), ((0, "Y"), (1, "Z")), ((0, "Z"), (1, "X"), (2, "Y"))]:
+        n = 1 + max(q for q, _ in term)
+        W = word_matrix(term, n)
+        for c in (1e-3, -1e-3, 1e-5, 1e-7, -1e-7, 1e-8):
+            U = unitary(exp_pauliword_to_gates(term, c), n)
+            E = np.cos(c) * np.eye(2 ** n) - 1j * np.sin(c) * W
+            err = float(np.max(np.abs(U - E)))
+            worst = max(worst, err)
+            n_cases += 1
+            if err > 1e-9:
+                chk.violation("numeric-tail:exp_pauliword_to_gates:small-coefficient", "NUMERIC TAIL: |U - exp(-icP)| = %.3g for c = %g, word %s"
+                              % (err, c, term), {"kind": "small-angle", "term": term, "c": c})
+    ops = [[(((0, "Z"),), 0.5), (((1, "Z"),), -0.25), (((0, "Z"), (1, "Z")), 0.125)],
+           [(((0, "X"), (1, "X")), 0.5), (((0, "Y"), (1, "Y")), 0.5)]]
+    for terms in ops:
+        op = QubitOperator()
+        H = np.zeros((4, 4), dtype=complex)
+        for t, c in terms:
+            op += QubitOperator(t, c)
+            H += c * word_matrix(t, 2)
+        w, v = np.linalg.eigh(H)
+        for (t_tot, steps, order) in [(2e-4, 400, 1), (2e-4, 400, 2), (1e-6, 1, 1), (3e-3, 40, 2), (1.0, 3, 1)]:
+            circ = trotterize(op, time=t_tot, n_trotter_steps=steps, trotter_order=order)
+            U = unitary(circ, 2)
+            E = (v * np.exp(-1j * t_tot * w)) @ v.conj().T
+            err = float(np.max(np.abs(U - E)))
+            worst = max(worst, err)
+            n_cases += 1
+            if err > 1e-9:
+                chk.violation("numeric-tail:trotterize:small-step", "NUMERIC TAIL: commuting terms, t=%g in %d steps (order %d): |U - exp(-itH)| = %.3g"
+                              % (t_tot, steps, order, err), {"kind": "small-step", "terms": terms, "t": t_tot, "steps": steps, "order": order})
+    chk.part("numeric_tail_small_angles_NOT_model_checked", cases=n_cases, worst_error=worst,
+             oracle="cirq.unitary of the translated circuit (float) vs numpy exp(-itH); tolerance 1e-9")
+
+
 def run(chk):
     rng = random.Random(chk.seed)
     quick = chk.quick
@@ -347,6 +421,7 @@ def run(chk):
     chk.part("V", jobs=len(jobs), expword=n_exp, by_kind={k: {"n": v[0], "bad": v[1]} for k, v in kinds.items()})
     chk.sample({"job": {k: jobs[0][k] for k in ("n", "gates", "factors", "ctrl")}, "info": str(meta[1]["info"])})
     chk.sample({"job": {k: jobs[-1][k] for k in ("n", "factors", "ctrl", "ph")}, "info": str(meta[len(jobs)]["info"])})
+    small_angle_tail(chk)
     chk.cov["rule"] = ("S: every word x k in -M..M x control choice (algorithm model vs exp(-icP), exact). "
                        "V: gate lists emitted by the code for words/coefficients/controls and operators x orders x steps x "
                        "time forms, judged exactly by TLC against the product formula")
